@@ -557,8 +557,18 @@ theorem succ_stmt (h : Cover P C C0 W) (n : Nat) (L : Level P sc C C0 W n) (LL :
       simp only [wfS, Bool.and_eq_true, countS, kS, shallowS, Nat.add_eq_zero_iff, Nat.max_le] at gw gc gk gs
       cases body
       simp only [wfF, countF, kF, shallowF, Bool.and_eq_true, Nat.add_eq_zero_iff, Nat.max_le, Nat.mul_eq_zero, List.isEmpty_iff] at gw gc gk gs
-      simp only [hSc, hA, hAt, countS, countF, if_true, if_false, Bool.false_eq_true]
-      grind
+      cases sc <;>
+        (simp only [hSc, hA, hAt, countS, countF, Hins, if_true, if_false, Bool.false_eq_true]
+         grind)
+    | localFn kind name body =>
+      simp only [wfS, Bool.and_eq_true, countS, kS, shallowS, Nat.add_eq_zero_iff, Nat.max_le] at gw gc gk gs
+      cases sc
+      · simp only [hSc, hA, hIF, countS, Hins, if_true, if_false, Bool.false_eq_true]
+        grind
+      · cases body
+        simp only [wfF, countF, kF, shallowF, Bool.and_eq_true, Nat.add_eq_zero_iff, Nat.max_le, Nat.mul_eq_zero] at gw gc gk gs
+        simp only [hSc, hA, hIF, hAt, countS, countF, Hins, if_true, if_false, Bool.false_eq_true]
+        grind
     | _ =>
       simp only [wfS, Bool.and_eq_true, countS, kS, shallowS, Nat.add_eq_zero_iff, Nat.max_le] at gw gc gk gs
       cases sc <;>
